@@ -50,6 +50,21 @@ def strAt (file : JVal) (p : List NStr) : NStr :=
 
 def natAt (file : JVal) (p : List NStr) : Option Nat := (path file p).bind natOf?
 
+/-- the strings of the array found at `p` (e.g. a `required` list) -/
+def strsAt (file : JVal) (p : List NStr) : List NStr :=
+  match path file p with
+  | some (.arr xs) => xs.filterMap JVal.str?
+  | _ => []
+
+/-- is there a member at `p` -/
+def hasAt (file : JVal) (p : List NStr) : Bool := (path file p).isSome
+
+/-- the `patternProperties` found at `p`, as (pattern, `$ref` of its subschema) pairs -/
+def patternRefsAt (file : JVal) (p : List NStr) : List (NStr × NStr) :=
+  match path file (p ++ [s%"patternProperties"]) with
+  | some (.obj m) => m.map fun kv => (kv.1, match kv.2.get? s%"$ref" with | some (.str r) => r | _ => NStr.empty)
+  | _ => []
+
 /-- (1): the three well-formedness checks for a set of files -/
 def SchemaSetOk (files : List (NStr × JVal)) : Bool :=
   let reg := registryOf files
